@@ -26,6 +26,8 @@ pub(crate) fn process_email_autolinks<'a>(
     let mut sp = *sourcepos;
 
     loop {
+        #[cfg(comrak_verif)]
+        crate::verif::step();
         let contents = &contents_str.as_bytes()[start..];
         let len = contents.len();
         let mut i = 0;
